@@ -520,7 +520,7 @@ impl ParserListener for Screen {
             }
 
             // Move lines within margins down
-            for y in (top..=bottom).rev() {
+            for y in (top..bottom).rev() {
                 let line = self.buffer.entry(y).or_insert(HashMap::new());
                 new_buffer.insert(y + 1, line.clone());
             }
